@@ -65,18 +65,21 @@ def null_allocation(h):
     return {}
 
 
-def expected_books(d, h, steps, upto_exec):
+def expected_books(d, h, steps, upto_exec, at_step_end=False):
     """Model book state (symbol -> (bid, ask)) right before the upto_exec-th
-    execution (0-based) of an episode visiting `steps`, from the delivery model."""
+    execution (0-based) of an episode visiting `steps` - or, with at_step_end, at the end of
+    that step - from the delivery model."""
     seq = d.episode(steps)
     by_id = {es["id"]: es for es in h.spec["events"]}
     books = {}
     dead = set()
     n_exec = -1
     for item in seq:
+        if item[0] == "STEP_END" and at_step_end and item[1] == upto_exec:
+            return books
         if item[0] == "EXEC":
             n_exec += 1
-            if n_exec == upto_exec:
+            if n_exec == upto_exec and not at_step_end:
                 return books
         elif item[0] == "M":
             eid = item[1]
